@@ -256,4 +256,5 @@ MUTANTS = [
  dict(id="C12", name="enabling_port_walked_three_characters_in", edits=[(PC, "                                               + (relative_to_parent ? 3 : 0);", "                                               + 3;")]),
  dict(id="C13", name="array_name_completed_to_longer_sibling", edits=[(PC, "           port.name[path_len] == '#')\n            return &port;", "           port.name[path_len] == '#' && false)\n            return &port;")]),
  dict(id="C12", name="hashed_guess_verified_by_prefix", edits=[(PC, "               msg[fixed[i].length()])\n                return false;", "               msg[fixed[i].length()] && false)\n                return false;")]),
+ dict(id="C03", name="callbackless_port_called", edits=[(PC, "d.port = &port, (port.cb ? port.cb(m,d) : (void)0), d.obj = obj;", "d.port = &port, port.cb(m,d), d.obj = obj;")]),
 ]
